@@ -275,6 +275,30 @@ func registerK8sIntrinsics(e *Engine) {
 		}
 		return tuple{content, iface{}}
 	})
+	// YAML decoding and CEL cannot be executed. For the ordering/conservation harnesses of C13: every YAML file holds
+	// exactly one object named after its path (the harness writes such files, so the real parser agrees), and a package
+	// without CEL conditions needs no CEL environment.
+	e.reg("package-operator.run/internal/packages/internal/packagerender.parseObjects", func(fr *frame, args []value) value {
+		i := fr.i
+		path := i.concretizeStr(args[2])
+		obj := newMap()
+		md := newMap()
+		md.set("name", iface{tString, strings.NewReplacer("/", "-", ".", "-").Replace(path)})
+		ann := newMap()
+		ann.set("package-operator.run/phase", iface{tString, "deploy"})
+		md.set("annotations", iface{i.tMapStringAny(), ann})
+		obj.set("apiVersion", iface{tString, "v1"})
+		obj.set("kind", iface{tString, "ConfigMap"})
+		obj.set("metadata", iface{i.tMapStringAny(), md})
+		return tuple{[]value{structure{obj}}, iface{}}
+	})
+	e.reg("package-operator.run/internal/packages/internal/packagerender/celctx.New", func(fr *frame, args []value) value {
+		conds, _ := args[0].([]value)
+		if len(conds) > 0 {
+			panic(unsupported("CEL conditions"))
+		}
+		return tuple{(*value)(nil), iface{}}
+	})
 	e.reg("k8s.io/client-go/util/flowcontrol.(*Backoff).GC", noop)
 	e.regPrefix("(*k8s.io/client-go/util/flowcontrol.Backoff).", noop)
 	// metrics recorders
